@@ -79,7 +79,7 @@ int main() {
   ref.seed(42);
   const char *shadow_what = "";
   std::string line;
-  uint64_t lineno = 0;
+  uint64_t lineno = 0, noracle = 0;
   while (std::getline(std::cin, line)) {
     ++lineno;
     auto w = words(line);
@@ -184,7 +184,8 @@ int main() {
     } else {
       std::cout << "bad-op\n";
     }
-    if (!bad.str().empty())
+    // at most 25 oracle lines per run (each one becomes a replay file; the first ones suffice)
+    if (!bad.str().empty() && ++noracle <= 25)
       std::cout << "ORACLE line=" << lineno << bad.str() << "\n";
   }
   delete g;
